@@ -27,6 +27,8 @@ import time  # noqa: E402
 from sim import shrink as shrinker  # noqa: E402
 
 VERIF = core.VERIF
+# where evidence/ and replays/ are written; the self-tests point this at a scratch directory
+OUT = os.environ.get("VERIF_OUT", VERIF)
 CHECKS = {"C01": "checks.c01", "C12": "checks.c12", "C14": "checks.c14", "C16": "checks.c16"}
 DEFAULT_SEED = {"quick": 20260927, "thorough": 77001}
 # (max runs, wall budget for the sweep in seconds)
@@ -212,7 +214,7 @@ def cmd_check(prop, tier, seed, n_runs, budget, first):
         if st2 != "ok" or not any(mod.signature(x) == sig for x in res2.get("violations", [])):
             rep_plan = plan_min
         tag = "".join(c if c.isalnum() else "_" for c in sig)[:60]
-        path = os.path.join(VERIF, "replays", prop, f"{seed}-{r['run']}-{tag}.json")
+        path = os.path.join(OUT, "replays", prop, f"{seed}-{r['run']}-{tag}.json")
         write_json(path, {"property": prop, "seed": seed, "run": r["run"], "tier": tier,
                           "signature": sig, "violation": vmin, "plan": rep_plan,
                           "repo": core.repo_state(), "shrink": st,
@@ -264,7 +266,7 @@ def cmd_check(prop, tier, seed, n_runs, budget, first):
         "wall_s": round(wall, 2),
         "violations": len(vio_lines),
     }
-    write_json(os.path.join(VERIF, "evidence", f"{prop}.json"), evidence)
+    write_json(os.path.join(OUT, "evidence", f"{prop}.json"), evidence)
 
     print(f"runs={evaluations} distinct_nontrivial={len(digests_nt)} steps={steps} "
           f"transitions={len(trans)} wall={wall:.1f}s runs/h={coverage['runs_per_hour']}")
